@@ -382,6 +382,54 @@ def r8_derived_spans(run, F):
     run.ob("R8-DERIVED-SPANS", "scan", n >= 2, "src/alpha/error.rs", "%d spans built in the report builder" % n)
 
 
+def r9_operator_location_after_pop(run, F):
+    """`tokens.last_location` is the location of the token popped last.  The location of an operator (the primary location of E550 /
+    E551 and their sort key) is therefore read *after* the operator token has been popped: in the first-generation parser every
+    statement that stores `tokens.last_location` into a local which ends up as `location_of_op` of an expression directly follows
+    the statement that pops the token.  Read before the pop it is the location of the previous operand's last token -- a
+    diagnostic that points at a neighbouring operand, possibly on another line, and still looks consistent."""
+    n = 0
+    for p, b in sorted(F.lib.bodies.items()):
+        if "hir" not in b or not F.rel(b["file"]).endswith("alpha/parser.rs") or "{closure" in p:
+            continue
+        # locals that become the `location_of_op` of a constructed expression
+        op_lids = set()
+        for x in walk(b["hir"]):
+            if x.get("k") == "Struct":
+                for f in x.get("fields", []):
+                    if f["name"] == "location_of_op":
+                        for y in walk(f["e"]):
+                            if y.get("k") == "Path" and y.get("rk") == "Local":
+                                op_lids.add(y.get("lid"))
+        if not op_lids:
+            continue
+
+        def reads_last(e):
+            e = hirq.unwrap_trivial(e)
+            while e.get("k") == "MethodCall" and e.get("name") == "clone":
+                e = hirq.unwrap_trivial(e["recv"])
+            return e.get("k") == "Field" and e.get("name") == "last_location"
+
+        def pops(stmt):
+            return any((hirq.callee(c) or c.get("name") or "").split("::")[-1] == "pop_front" for c in hirq.calls(stmt))
+        for blk in [x for x in walk(b["hir"]) if x.get("k") == "Block"]:
+            st = blk.get("stmts", [])
+            for i, s_ in enumerate(st):
+                lid = None
+                if s_.get("k") == "Let" and isinstance(s_.get("init"), dict) and reads_last(s_["init"]) and hirq.strip_ref(s_["pat"]).get("k") == "Bind":
+                    lid = hirq.strip_ref(s_["pat"])["lid"]
+                elif s_.get("k") == "Assign" and reads_last(s_["rhs"]):
+                    lid = hirq.unwrap_trivial(s_["lhs"]).get("lid")
+                if lid is None or lid not in op_lids:
+                    continue
+                n += 1
+                ok = i > 0 and pops(st[i - 1]) and not any(pops(t) for t in st[i + 1:i + 2])
+                run.ob("R9-OPERATOR-LOCATION-AFTER-POP", "%s|site %d" % (p.split("::")[-1], n), ok, F.where(b, s_),
+                       "the operator's location is read from tokens.last_location directly after the statement that pops the operator token "
+                       "(previous statement pops: %s)" % (i > 0 and pops(st[i - 1])))
+    run.floor("R9-OPERATOR-LOCATION-AFTER-POP", 5, "operator-location reads in the first-generation parser (6 counted)")
+
+
 def check(run):
     F = run.facts("B")
     r1_codes(run, F)
@@ -392,3 +440,4 @@ def check(run):
     r6_config(run, F)
     r7_span_start(run, F)
     r8_derived_spans(run, F)
+    r9_operator_location_after_pop(run, F)
